@@ -147,6 +147,72 @@ func c20R1(r *Report) {
 			}
 			return false
 		}
+		// equalOnIndex: among gs, Equal(pv, Files[idx].Path) == true for this very index value
+		equalOnIndex := func(idx ssa.Value, gs []Guard, pv ssa.Value) bool {
+			for _, g := range gs {
+				g = g.norm()
+				c, ok := g.Cond.(*ssa.Call)
+				if !ok || !g.Pol {
+					continue
+				}
+				cal := c.Call.StaticCallee()
+				if cal == nil || cal.Name() != "Equal" || relPkg(cal) != "path" {
+					continue
+				}
+				for k, a := range c.Call.Args[:2] {
+					other := c.Call.Args[1-k]
+					if a != pv {
+						continue
+					}
+					fv, b2 := loadedField(other)
+					if fv == nil || fv.Name() != "Path" {
+						continue
+					}
+					if ia, isIA := b2.(*ssa.IndexAddr); isIA {
+						if f2, _ := loadedField(ia.X); f2 == filesF && (ia.Index == idx || symEq(stripIntConv(ia.Index), stripIntConv(idx), 0)) {
+							return true
+						}
+					}
+				}
+			}
+			return false
+		}
+		// matchedIndex: idx designates an entry whose path equals the request: tested here, or the non-negative
+		// result of a helper of the package that was handed the request path (findFile(t, pth) int)
+		matchedIndex := func(idx ssa.Value, at *ssa.BasicBlock) bool {
+			if at != nil && equalOnIndex(idx, guardsOf(at), pth) {
+				return true
+			}
+			c, ok := stripIntConv(idx).(*ssa.Call)
+			if !ok || c.Call.IsInvoke() {
+				return false
+			}
+			h := c.Call.StaticCallee()
+			if h == nil || h.Blocks == nil || relPkg(h) != relPkg(fp) {
+				return false
+			}
+			var pprm ssa.Value
+			for k, a := range c.Call.Args {
+				if a == ssa.Value(pth) && k < len(h.Params) {
+					pprm = h.Params[k]
+				}
+			}
+			if pprm == nil {
+				return false
+			}
+			some := false
+			for _, ret := range returnsOf(h) {
+				rv := retResults(ret)[0]
+				if k, isk := constInt(rv); isk && k < 0 {
+					continue
+				}
+				some = true
+				if !equalOnIndex(rv, guardsOf(ret.Block()), pprm) {
+					return false
+				}
+			}
+			return some
+		}
 		var rec func(v ssa.Value, at *ssa.BasicBlock, from *ssa.BasicBlock, d int) bool
 		rec = func(v ssa.Value, at *ssa.BasicBlock, from *ssa.BasicBlock, d int) bool {
 			if d > 5 {
@@ -156,6 +222,16 @@ func c20R1(r *Report) {
 				return true
 			}
 			switch x := v.(type) {
+			case *ssa.IndexAddr:
+				// &t.Files[i] for a matched index i
+				if f2, _ := loadedField(x.X); f2 == filesF {
+					blk := at
+					if blk == nil {
+						blk = x.Block()
+					}
+					return matchedIndex(x.Index, blk)
+				}
+				return false
 			case *ssa.Alloc:
 				return at != nil && equalOn(x, at, from)
 			case *ssa.Phi:
